@@ -94,7 +94,7 @@ def frames_to_bytes(frames, delimited: bool) -> bytes:
 
 # ------------------------------------------------------------------ generic
 G_WRITERS = ("stream_frames_gen", "stream_frames_sink", "flat_to_frames", "flat_to_file",
-             "grouped_to_file")
+             "grouped_to_file", "stream_frames_list", "flat_to_frames_iter")
 
 
 def g_stream(cls: str, opts):
@@ -128,6 +128,11 @@ def g_write(seq, cls: str, opts, entry: str = "stream_frames_gen", bindings=()) 
     if entry == "stream_frames_sink":
         stream = g_stream(cls, opts)
         return frames_to_bytes(gser.stream_frames(stream, g_sink(seq, bindings)), delimited)
+    if entry == "stream_frames_list":  # the statements as a plain list
+        stream = g_stream(cls, opts)
+        return frames_to_bytes(gser.stream_frames(stream, list(stmts)), delimited)
+    if entry == "flat_to_frames_iter":  # an iterator object that is not a generator
+        return frames_to_bytes(gser.flat_stream_to_frames(iter(tuple(stmts)), opts), delimited)
     if entry == "flat_to_frames":
         return frames_to_bytes(gser.flat_stream_to_frames((s for s in stmts), opts), delimited)
     if entry == "flat_to_file":
@@ -247,7 +252,8 @@ def r_graph(seq, bindings=(), empty=()):
 
 
 R_WRITERS = ("stream_frames_gen", "flat_to_frames", "flat_to_file", "graph_serialize_stream",
-             "graph_serialize_options", "grouped_to_file", "stream_frames_graph")
+             "graph_serialize_options", "grouped_to_file", "stream_frames_graph",
+             "stream_frames_list", "flat_to_frames_iter")
 
 
 def r_write(seq, cls: str, opts, entry: str = "stream_frames_gen", bindings=()) -> bytes:
@@ -258,6 +264,12 @@ def r_write(seq, cls: str, opts, entry: str = "stream_frames_gen", bindings=()) 
         stmts = [T.st_to_rdflib(s) for s in seq]
         return frames_to_bytes(rser.stream_frames(r_stream(cls, opts), (s for s in stmts)),
                                delimited)
+    if entry == "stream_frames_list":
+        stmts = [T.st_to_rdflib(s) for s in seq]
+        return frames_to_bytes(rser.stream_frames(r_stream(cls, opts), stmts), delimited)
+    if entry == "flat_to_frames_iter":
+        stmts = [T.st_to_rdflib(s) for s in seq]
+        return frames_to_bytes(rser.flat_stream_to_frames(iter(tuple(stmts)), opts), delimited)
     if entry == "flat_to_frames":
         stmts = [T.st_to_rdflib(s) for s in seq]
         return frames_to_bytes(rser.flat_stream_to_frames((s for s in stmts), opts), delimited)
